@@ -78,6 +78,15 @@ func init() {
 	prefixes := []string{"../", "../../", "../../../", "/", "a/../../", "./../", "..//", "..\\", ""}
 	lasts := []string{".", "..", "...", "....", " ", "  ", ". .", " .", ". ", " ..", ".. ", "\t", "x.", "x ", "x..", ".x", "..x", "~", "%2e%2e", "..%2f..%2fx", "\\", ".\\..", "*", "?", "x\x00", "\x00", "..\x00", "x\n", "\r", "CON", "x:y", "-", "--", ".hidden", "..hidden"}
 	suffixes := []string{"", "/", " ", ".", "/.", "/..", "\x00", "//"}
+	// the alarm-attachment naming convention  <type>_<channel>_<alarmtype>_<seq>_<alarmno>.<ext>  with one hostile field
+	for fi := 0; fi < 5; fi++ {
+		for _, h := range []string{"..", ".", "/", "\\", "../..", "a/b", ""} {
+			f := []string{"00", "64", "6401", "0", "abc123"}
+			f[fi] = h
+			base := strings.Join(f, "_")
+			c19Names = append(c19Names, base+".jpg", base, base+".", "../"+base+".jpg")
+		}
+	}
 	for _, p := range prefixes {
 		for _, l := range lasts {
 			for si, sfx := range suffixes {
